@@ -11,7 +11,7 @@ def ClockSkewTolerancePast : Go.Duration := ((10 : Int) * Go.Second)
 /-- verifyIssuer (jwt.go) -/
 def verifyIssuer (tokenIssuer : Go.Str) (expectedIssuer : Go.Str) : Go.Err :=
   if (tokenIssuer != expectedIssuer) then
-    (some ['i','n','v','a','l','i','d',' ','i','s','s','u','e','r',' ','(','t','o','k','e','n',':',' ','%','s',',',' ','e','x','p','e','c','t','e','d',':',' ','%','s',')'])
+    (some (['i','n','v','a','l','i','d',' ','i','s','s','u','e','r',' ','(','t','o','k','e','n',':',' '] ++ tokenIssuer ++ [',',' ','e','x','p','e','c','t','e','d',':',' '] ++ expectedIssuer ++ [')']))
   else
     (none : Go.Err)
 
@@ -23,7 +23,7 @@ def verifyTimeConstraint (now : Go.Time) (unixTime : Go.F64) (claimName : Go.Str
   if future then
     let allowedExpiry := (Go.timeAdd claimTime ClockSkewToleranceFuture)
     if (Go.timeAfter now_1 allowedExpiry) then
-      let err := (some ['t','o','k','e','n',' ','h','a','s',' ','e','x','p','i','r','e','d',' ','(','e','x','p',':',' ','%','v',',',' ','n','o','w',':',' ','%','v',',',' ','a','l','l','o','w','e','d','_','u','n','t','i','l',':',' ','%','v',')'])
+      let err := (some (['t','o','k','e','n',' ','h','a','s',' ','e','x','p','i','r','e','d',' ','(','e','x','p',':',' ','%','v'] ++ [',',' ','n','o','w',':',' ','%','v'] ++ [',',' ','a','l','l','o','w','e','d','_','u','n','t','i','l',':',' ','%','v'] ++ [')']))
       err
     else
       err
@@ -33,10 +33,10 @@ def verifyTimeConstraint (now : Go.Time) (unixTime : Go.F64) (claimName : Go.Str
       let reason := ['n','o','t',' ','y','e','t',' ','v','a','l','i','d']
       if (claimName == ['i','a','t']) then
         let reason := ['u','s','e','d',' ','b','e','f','o','r','e',' ','i','s','s','u','e','d']
-        let err := (some ['t','o','k','e','n',' ','%','s',' ','(','%','s',':',' ','%','v',',',' ','n','o','w',':',' ','%','v',',',' ','a','l','l','o','w','e','d','_','f','r','o','m',':',' ','%','v',')'])
+        let err := (some (['t','o','k','e','n',' '] ++ reason ++ [' ','('] ++ claimName ++ [':',' ','%','v'] ++ [',',' ','n','o','w',':',' ','%','v'] ++ [',',' ','a','l','l','o','w','e','d','_','f','r','o','m',':',' ','%','v'] ++ [')']))
         err
       else
-        let err := (some ['t','o','k','e','n',' ','%','s',' ','(','%','s',':',' ','%','v',',',' ','n','o','w',':',' ','%','v',',',' ','a','l','l','o','w','e','d','_','f','r','o','m',':',' ','%','v',')'])
+        let err := (some (['t','o','k','e','n',' '] ++ reason ++ [' ','('] ++ claimName ++ [':',' ','%','v'] ++ [',',' ','n','o','w',':',' ','%','v'] ++ [',',' ','a','l','l','o','w','e','d','_','f','r','o','m',':',' ','%','v'] ++ [')']))
         err
     else
       err
@@ -58,7 +58,7 @@ def verifyAudience (tokenAudience : Go.Any) (expectedAudience : Go.Str) : Go.Err
   match tokenAudience with
   | .str aud =>
     if (aud != expectedAudience) then
-      (some ['i','n','v','a','l','i','d',' ','a','u','d','i','e','n','c','e'])
+      (some (['i','n','v','a','l','i','d',' ','a','u','d','i','e','n','c','e']))
     else
       (none : Go.Err)
   | .arr aud =>
@@ -73,31 +73,31 @@ def verifyAudience (tokenAudience : Go.Any) (expectedAudience : Go.Str) : Go.Err
     | .ret r => r
     | .next found =>
       if (!found) then
-        (some ['i','n','v','a','l','i','d',' ','a','u','d','i','e','n','c','e'])
+        (some (['i','n','v','a','l','i','d',' ','a','u','d','i','e','n','c','e']))
       else
         (none : Go.Err)
     | .brk found =>
       if (!found) then
-        (some ['i','n','v','a','l','i','d',' ','a','u','d','i','e','n','c','e'])
+        (some (['i','n','v','a','l','i','d',' ','a','u','d','i','e','n','c','e']))
       else
         (none : Go.Err)
   | _ =>
-    (some ['i','n','v','a','l','i','d',' ','\'','a','u','d','\'',' ','c','l','a','i','m',' ','t','y','p','e'])
+    (some (['i','n','v','a','l','i','d',' ','\'','a','u','d','\'',' ','c','l','a','i','m',' ','t','y','p','e']))
 
 /-- JWT.Verify (jwt.go) -/
 def JWT_Verify (now : Go.Time) (j : Go.JWT) (issuerURL : Go.Str) (clientID : Go.Str) : Go.Err :=
   let (alg, ok) := Go.asStr (Go.mapGet j.Header ['a','l','g'])
   if (!ok) then
-    (some ['m','i','s','s','i','n','g',' ','\'','a','l','g','\'',' ','h','e','a','d','e','r'])
+    (some (['m','i','s','s','i','n','g',' ','\'','a','l','g','\'',' ','h','e','a','d','e','r']))
   else
     let supportedAlgs := ([(['R','S','2','5','6'], true), (['R','S','3','8','4'], true), (['R','S','5','1','2'], true), (['P','S','2','5','6'], true), (['P','S','3','8','4'], true), (['P','S','5','1','2'], true), (['E','S','2','5','6'], true), (['E','S','3','8','4'], true), (['E','S','5','1','2'], true)] : List (Go.Str × Bool))
     if (!(Go.boolMapGet supportedAlgs alg)) then
-      (some ['u','n','s','u','p','p','o','r','t','e','d',' ','a','l','g','o','r','i','t','h','m',':',' ','%','s'])
+      (some (['u','n','s','u','p','p','o','r','t','e','d',' ','a','l','g','o','r','i','t','h','m',':',' '] ++ alg))
     else
       let claims := j.Claims
       let (iss, ok) := Go.asStr (Go.mapGet claims ['i','s','s'])
       if (!ok) then
-        (some ['m','i','s','s','i','n','g',' ','\'','i','s','s','\'',' ','c','l','a','i','m'])
+        (some (['m','i','s','s','i','n','g',' ','\'','i','s','s','\'',' ','c','l','a','i','m']))
       else
         let err := (verifyIssuer iss issuerURL)
         if err.isSome then
@@ -105,7 +105,7 @@ def JWT_Verify (now : Go.Time) (j : Go.JWT) (issuerURL : Go.Str) (clientID : Go.
         else
           let (aud, ok) := Go.mapGet2 claims ['a','u','d']
           if (!ok) then
-            (some ['m','i','s','s','i','n','g',' ','\'','a','u','d','\'',' ','c','l','a','i','m'])
+            (some (['m','i','s','s','i','n','g',' ','\'','a','u','d','\'',' ','c','l','a','i','m']))
           else
             let err := (verifyAudience aud clientID)
             if err.isSome then
@@ -113,7 +113,7 @@ def JWT_Verify (now : Go.Time) (j : Go.JWT) (issuerURL : Go.Str) (clientID : Go.
             else
               let (exp, ok) := Go.asF64 (Go.mapGet claims ['e','x','p'])
               if (!ok) then
-                (some ['m','i','s','s','i','n','g',' ','o','r',' ','i','n','v','a','l','i','d',' ','\'','e','x','p','\'',' ','c','l','a','i','m'])
+                (some (['m','i','s','s','i','n','g',' ','o','r',' ','i','n','v','a','l','i','d',' ','\'','e','x','p','\'',' ','c','l','a','i','m']))
               else
                 let err := (verifyExpiration now exp)
                 if err.isSome then
@@ -121,7 +121,7 @@ def JWT_Verify (now : Go.Time) (j : Go.JWT) (issuerURL : Go.Str) (clientID : Go.
                 else
                   let (iat, ok) := Go.asF64 (Go.mapGet claims ['i','a','t'])
                   if (!ok) then
-                    (some ['m','i','s','s','i','n','g',' ','o','r',' ','i','n','v','a','l','i','d',' ','\'','i','a','t','\'',' ','c','l','a','i','m'])
+                    (some (['m','i','s','s','i','n','g',' ','o','r',' ','i','n','v','a','l','i','d',' ','\'','i','a','t','\'',' ','c','l','a','i','m']))
                   else
                     let err := (verifyIssuedAt now iat)
                     if err.isSome then
@@ -131,7 +131,7 @@ def JWT_Verify (now : Go.Time) (j : Go.JWT) (issuerURL : Go.Str) (clientID : Go.
                       if present then
                         let (nbf, ok_1) := Go.asF64 nbfClaim
                         if (!ok_1) then
-                          (some ['i','n','v','a','l','i','d',' ','\'','n','b','f','\'',' ','c','l','a','i','m'])
+                          (some (['i','n','v','a','l','i','d',' ','\'','n','b','f','\'',' ','c','l','a','i','m']))
                         else
                           let err := (verifyNotBefore now nbf)
                           if err.isSome then
@@ -139,13 +139,13 @@ def JWT_Verify (now : Go.Time) (j : Go.JWT) (issuerURL : Go.Str) (clientID : Go.
                           else
                             let (sub, ok) := Go.asStr (Go.mapGet claims ['s','u','b'])
                             if ((!ok) || (sub == ([] : Go.Str))) then
-                              (some ['m','i','s','s','i','n','g',' ','o','r',' ','e','m','p','t','y',' ','\'','s','u','b','\'',' ','c','l','a','i','m'])
+                              (some (['m','i','s','s','i','n','g',' ','o','r',' ','e','m','p','t','y',' ','\'','s','u','b','\'',' ','c','l','a','i','m']))
                             else
                               (none : Go.Err)
                       else
                         let (sub, ok) := Go.asStr (Go.mapGet claims ['s','u','b'])
                         if ((!ok) || (sub == ([] : Go.Str))) then
-                          (some ['m','i','s','s','i','n','g',' ','o','r',' ','e','m','p','t','y',' ','\'','s','u','b','\'',' ','c','l','a','i','m'])
+                          (some (['m','i','s','s','i','n','g',' ','o','r',' ','e','m','p','t','y',' ','\'','s','u','b','\'',' ','c','l','a','i','m']))
                         else
                           (none : Go.Err)
 
@@ -216,7 +216,7 @@ def buildFullURL (scheme : Go.Str) (host : Go.Str) (path : Go.Str) : Go.Str :=
 def TraefikOidc_extractGroupsAndRoles (t : Go.Inst) (idToken : Go.Str) : (List Go.Str) × (List Go.Str) × Go.Err :=
   let (claims, err) := (t.extractClaimsFunc idToken)
   if err.isSome then
-    (([] : List Go.Str), ([] : List Go.Str), (some ['f','a','i','l','e','d',' ','t','o',' ','e','x','t','r','a','c','t',' ','c','l','a','i','m','s',':',' ','%','w']))
+    (([] : List Go.Str), ([] : List Go.Str), (some (['f','a','i','l','e','d',' ','t','o',' ','e','x','t','r','a','c','t',' ','c','l','a','i','m','s',':',' '] ++ (Go.errText err))))
   else
     let groups := ([] : List Go.Str)
     let roles := ([] : List Go.Str)
@@ -224,7 +224,7 @@ def TraefikOidc_extractGroupsAndRoles (t : Go.Inst) (idToken : Go.Str) : (List G
     if exists_ then
       let (groupsSlice, ok) := Go.asArr groupsClaim
       if (!ok) then
-        (([] : List Go.Str), ([] : List Go.Str), (some ['g','r','o','u','p','s',' ','c','l','a','i','m',' ','i','s',' ','n','o','t',' ','a','n',' ','a','r','r','a','y']))
+        (([] : List Go.Str), ([] : List Go.Str), (some (['g','r','o','u','p','s',' ','c','l','a','i','m',' ','i','s',' ','n','o','t',' ','a','n',' ','a','r','r','a','y'])))
       else
         match Go.forRange groupsSlice groups (fun group groups =>
           let (groupStr, ok_1) := Go.asStr group
@@ -239,7 +239,7 @@ def TraefikOidc_extractGroupsAndRoles (t : Go.Inst) (idToken : Go.Str) : (List G
           if exists_ then
             let (rolesSlice, ok) := Go.asArr rolesClaim
             if (!ok) then
-              (([] : List Go.Str), ([] : List Go.Str), (some ['r','o','l','e','s',' ','c','l','a','i','m',' ','i','s',' ','n','o','t',' ','a','n',' ','a','r','r','a','y']))
+              (([] : List Go.Str), ([] : List Go.Str), (some (['r','o','l','e','s',' ','c','l','a','i','m',' ','i','s',' ','n','o','t',' ','a','n',' ','a','r','r','a','y'])))
             else
               match Go.forRange rolesSlice roles (fun role roles =>
                 let (roleStr, ok_2) := Go.asStr role
@@ -260,7 +260,7 @@ def TraefikOidc_extractGroupsAndRoles (t : Go.Inst) (idToken : Go.Str) : (List G
           if exists_ then
             let (rolesSlice, ok) := Go.asArr rolesClaim
             if (!ok) then
-              (([] : List Go.Str), ([] : List Go.Str), (some ['r','o','l','e','s',' ','c','l','a','i','m',' ','i','s',' ','n','o','t',' ','a','n',' ','a','r','r','a','y']))
+              (([] : List Go.Str), ([] : List Go.Str), (some (['r','o','l','e','s',' ','c','l','a','i','m',' ','i','s',' ','n','o','t',' ','a','n',' ','a','r','r','a','y'])))
             else
               match Go.forRange rolesSlice roles (fun role roles =>
                 let (roleStr, ok_2) := Go.asStr role
@@ -281,7 +281,7 @@ def TraefikOidc_extractGroupsAndRoles (t : Go.Inst) (idToken : Go.Str) : (List G
       if exists_ then
         let (rolesSlice, ok) := Go.asArr rolesClaim
         if (!ok) then
-          (([] : List Go.Str), ([] : List Go.Str), (some ['r','o','l','e','s',' ','c','l','a','i','m',' ','i','s',' ','n','o','t',' ','a','n',' ','a','r','r','a','y']))
+          (([] : List Go.Str), ([] : List Go.Str), (some (['r','o','l','e','s',' ','c','l','a','i','m',' ','i','s',' ','n','o','t',' ','a','n',' ','a','r','r','a','y'])))
         else
           match Go.forRange rolesSlice roles (fun role roles =>
             let (roleStr, ok_3) := Go.asStr role
@@ -316,6 +316,63 @@ def splitIntoChunks (fuel : Nat) (s : Go.Str) (chunkSize : Int) : Option (List G
   | some (.brk (chunks, s)) =>
     some (chunks)
 
+/-- TraefikOidc.VerifyJWTSignatureAndClaims (main.go) -/
+def TraefikOidc_VerifyJWTSignatureAndClaims (now : Go.Time) (t : Go.Inst) (jwt : Go.JWT) (token : Go.Str) : Go.Err :=
+  let (jwks, err) := t.getJWKS
+  if err.isSome then
+    (some (['f','a','i','l','e','d',' ','t','o',' ','g','e','t',' ','J','W','K','S',':',' '] ++ (Go.errText err)))
+  else
+    let (kid, ok) := Go.asStr (Go.mapGet jwt.Header ['k','i','d'])
+    if (!ok) then
+      (some (['m','i','s','s','i','n','g',' ','k','e','y',' ','I','D',' ','i','n',' ','t','o','k','e','n',' ','h','e','a','d','e','r']))
+    else
+      let (alg, ok) := Go.asStr (Go.mapGet jwt.Header ['a','l','g'])
+      if (!ok) then
+        (some (['m','i','s','s','i','n','g',' ','a','l','g','o','r','i','t','h','m',' ','i','n',' ','t','o','k','e','n',' ','h','e','a','d','e','r']))
+      else
+        let matchingKey := (none : Option Go.JWK)
+        match Go.forRange jwks.Keys matchingKey (fun key matchingKey =>
+          if (key.Kid == kid) then
+            let matchingKey := (some key)
+            .brk matchingKey
+          else
+            .next matchingKey) with
+        | .ret r => r
+        | .next matchingKey =>
+          if matchingKey.isNone then
+            (some (['n','o',' ','m','a','t','c','h','i','n','g',' ','p','u','b','l','i','c',' ','k','e','y',' ','f','o','u','n','d',' ','f','o','r',' ','k','i','d',':',' '] ++ kid))
+          else
+            let (publicKeyPEM, err) := (t.jwkToPEM matchingKey)
+            if err.isSome then
+              (some (['f','a','i','l','e','d',' ','t','o',' ','c','o','n','v','e','r','t',' ','J','W','K',' ','t','o',' ','P','E','M',':',' '] ++ (Go.errText err)))
+            else
+              let err_1 := (t.verifySignature token publicKeyPEM alg)
+              if err_1.isSome then
+                (some (['s','i','g','n','a','t','u','r','e',' ','v','e','r','i','f','i','c','a','t','i','o','n',' ','f','a','i','l','e','d',':',' '] ++ (Go.errText err_1)))
+              else
+                let err_2 := (JWT_Verify now jwt t.issuerURL t.clientID)
+                if err_2.isSome then
+                  (some (['s','t','a','n','d','a','r','d',' ','c','l','a','i','m',' ','v','e','r','i','f','i','c','a','t','i','o','n',' ','f','a','i','l','e','d',':',' '] ++ (Go.errText err_2)))
+                else
+                  (none : Go.Err)
+        | .brk matchingKey =>
+          if matchingKey.isNone then
+            (some (['n','o',' ','m','a','t','c','h','i','n','g',' ','p','u','b','l','i','c',' ','k','e','y',' ','f','o','u','n','d',' ','f','o','r',' ','k','i','d',':',' '] ++ kid))
+          else
+            let (publicKeyPEM, err) := (t.jwkToPEM matchingKey)
+            if err.isSome then
+              (some (['f','a','i','l','e','d',' ','t','o',' ','c','o','n','v','e','r','t',' ','J','W','K',' ','t','o',' ','P','E','M',':',' '] ++ (Go.errText err)))
+            else
+              let err_1 := (t.verifySignature token publicKeyPEM alg)
+              if err_1.isSome then
+                (some (['s','i','g','n','a','t','u','r','e',' ','v','e','r','i','f','i','c','a','t','i','o','n',' ','f','a','i','l','e','d',':',' '] ++ (Go.errText err_1)))
+              else
+                let err_2 := (JWT_Verify now jwt t.issuerURL t.clientID)
+                if err_2.isSome then
+                  (some (['s','t','a','n','d','a','r','d',' ','c','l','a','i','m',' ','v','e','r','i','f','i','c','a','t','i','o','n',' ','f','a','i','l','e','d',':',' '] ++ (Go.errText err_2)))
+                else
+                  (none : Go.Err)
+
 /-- TraefikOidc.isUserAuthenticated (main.go) -/
 def TraefikOidc_isUserAuthenticated (now : Go.Time) (t : Go.Inst) (session : Go.Sess) : Bool × Bool × Bool :=
   if (!session.GetAuthenticated) then
@@ -338,7 +395,7 @@ def TraefikOidc_isUserAuthenticated (now : Go.Time) (t : Go.Inst) (session : Go.
         else
           (false, false, true)
       else
-        let err_1 := (t.VerifyJWTSignatureAndClaims jwt accessToken)
+        let err_1 := (TraefikOidc_VerifyJWTSignatureAndClaims now t jwt accessToken)
         if err_1.isSome then
           if (Go.contains (Go.errText err_1) ['t','o','k','e','n',' ','h','a','s',' ','e','x','p','i','r','e','d']) then
             if (session.GetRefreshToken != ([] : Go.Str)) then
